@@ -1,8 +1,11 @@
-(* Correspondence glue for C15: the harness records, for each (base URL, root, resource path, query), the URL of the
-   *http.Request the real client built; [mismatches] evaluates the model on the same inputs.  It also re-evaluates, in
+(* Correspondence glue for C15: the harness records, for each request (tunnelling threshold of the client, base URL the
+   resolver answered, root, resource path, query), the URL of the *http.Request the real client built; [mismatches]
+   evaluates the model on the same inputs.  The requests come in HISTORIES on long-lived clients (the JSON description of
+   a case lists the requests made earlier on the same client); every request of a history is a case of its own and is
+   compared with the model's URL for that request ALONE (Props/C15.v url_of_request_history_independent).  It also re-evaluates, in
    Coq, the grammar premises and the specification function [context] that the Go oracle used, so that the oracle and
    the theorems speak about the same predicates. *)
-From Coq Require Import List Bool Arith.
+From Coq Require Import List Bool Arith ZArith.
 From Coq.Strings Require Import Byte.
 From GR Require Import Base.Bytes Gen.TablesUrl Http.UrlModel Http.Url Http.UrlEnc.
 Import ListNotations.
@@ -22,8 +25,10 @@ Definition url_eqb (a b : URL) : bool :=
 
 (* c_base: the fields of the *url.URL the resolver returned.  c_parsed = true: it came from url.Parse of
    scheme://host ++ c_bp, so it must equal [mk_base].  c_segs / c_trailing: how the harness rendered c_bp (None: not from
-   the grammar renderer).  c_in_grammar / c_ctx_spec: the Go oracle's evaluation of the premises and of [context]. *)
-Record case := { c_v2 : bool; c_base : URL; c_parsed : bool; c_bp : bytes; c_segs : option (list bytes * bool);
+   the grammar renderer).  c_in_grammar / c_ctx_spec: the Go oracle's evaluation of the premises and of [context].
+   c_threshold: Client.QueryTunnellingThreshold; c_tunnel_spec: the oracle's reading of "the query is longer than a
+   positive threshold" on the encoder's query. *)
+Record case := { c_v2 : bool; c_threshold : Z; c_tunnel_spec : bool; c_base : URL; c_parsed : bool; c_bp : bytes; c_segs : option (list bytes * bool);
                  c_root : bytes; c_rpath : bytes; c_query : option bytes;
                  c_in_grammar : bool; c_ctx_spec : bytes; c_obs : observed }.
 
@@ -32,7 +37,7 @@ Definition err_obs : observed :=
      o_force := false |}.
 
 Definition model_out (c : case) : observed :=
-  match new_request_url (c_base c) (c_root c) (c_rpath c) (c_query c) with
+  match new_request_url_t (c_v2 c) (c_threshold c) (c_base c) (c_root c) (c_rpath c) (c_query c) with
   | UErr _ => err_obs
   | UOk u =>
       {| o_ok := true; o_string := match url_string u with UOk s => s | UErr _ => [] end; o_epath := escaped_path u;
@@ -55,7 +60,8 @@ Definition check_case (c : case) : bool :=
   observed_eqb (model_out c) (c_obs c)
   && (negb (c_parsed c) || url_eqb (mk_base (u_scheme (c_base c)) (u_host (c_base c)) (c_bp c)) (c_base c))
   && Bool.eqb (premises c) (c_in_grammar c)
-  && bytes_eqb (context (c_bp c) (c_root c)) (c_ctx_spec c).
+  && bytes_eqb (context (c_bp c) (c_root c)) (c_ctx_spec c)
+  && Bool.eqb (tunnel_test (c_v2 c) (c_threshold c) (Z.of_nat (length (raw_query_of (c_query c))))) (c_tunnel_spec c).
 
 Fixpoint mismatches_from (i : nat) (l : list case) : list nat :=
   match l with
